@@ -12,7 +12,7 @@ from . import replay as RP
 from . import emit_l2 as E
 
 VERIF = "/verif"
-REPO = "/repo"
+REPO = K.REPO
 
 
 def log(*a):
@@ -520,8 +520,8 @@ def finish(rep, level_rule, assumptions, outside):
     ev = {"property_id": rep.prop, "tier": rep.tier, "seed": rep.seed, "level": "model_checking",
           "coverage": cov, "assumptions": assumptions, "wall_s": round(wall, 1),
           "violations": len(unlisted)}
-    os.makedirs(os.path.join(VERIF, "evidence"), exist_ok=True)
-    with open(os.path.join(VERIF, "evidence", rep.prop + ".json"), "w") as f:
+    os.makedirs(K.EVIDENCE_DIR, exist_ok=True)
+    with open(os.path.join(K.EVIDENCE_DIR, rep.prop + ".json"), "w") as f:
         json.dump(ev, f, indent=1, sort_keys=False)
     log("[%s] %s tier: %d obligations discharged (%d distinct non-trivial), %d inconclusive, %d violations (%d known), "
         "%d unreproduced, %.0fs wall, solver %.1fs" % (rep.prop, rep.tier, decided, len(rep.obligations_ok), n_inc,
